@@ -223,6 +223,9 @@ def _pred_case(vals, acc):
 def run(ctx):
     rep = ctx.new_report()
     alpha = ALPHA + [500 + ctx.seed % 400]
+    from vlib import lits
+    alpha += [w for v in lits.new('oslo_utils/versionutils.py')['ints'] for w in (v - 1, v)
+              if 0 <= w <= 999 and w not in alpha][:4]
     maxlen = 5 if ctx.thorough else 4
     tuples = []
     for n in range(1, maxlen + 1):
